@@ -88,7 +88,13 @@ FLOORS = {
                            "pairs_compared": 30000, "equal_pairs_compared": 2000, "tokenize_calls": 300000},
               "sets": {"diff_mechanisms": 400, "value_features": 25, "hash_probe_values": 10},
               "max_skipped_fraction": 0.05},
-    "thorough": {"evaluations": 1, "distinct_nontrivial": 1},
+    # thorough = 800000 pairs + 192 interpreter batches of 800: scaled from the quick per-case rates
+    # (7.7 determinism checks, 0.86 compared pairs, 0.08 equal pairs, 10.7 tokenize calls per pair case)
+    "thorough": {"evaluations": 350000, "distinct_nontrivial": 350000,
+                 "counters": {"determinism_checks": 2500000, "xproc_comparisons": 200000, "xproc_batches": 80,
+                              "pairs_compared": 300000, "equal_pairs_compared": 25000, "tokenize_calls": 3500000},
+                 "sets": {"diff_mechanisms": 400, "value_features": 25, "hash_probe_values": 80},
+                 "max_skipped_fraction": 0.05},
 }
 EXHAUSTIVE_SPACE = "all unordered pairs of the fixed atom list vf.gen.c12_values.atoms() (collision facet only)"
 LEVEL_NOTE = ("trusts the harness oracle diff() and the description builder; the tokens themselves are only compared for "
@@ -101,7 +107,7 @@ CLAIM = ("Every token computed for the generated values was compared with the to
 TECHNIQUE = ("runtime monitoring: return-value oracle on tokenize() (structural observable-equality oracle for pairs; "
              "repeat/deepcopy/pickle/rebuild and cross-interpreter comparison for determinism), complete atom-pair space + random")
 
-# genuine defects found on the unchanged tree (details: findings_proposed/C12.md)
+# labels that still fire on the current tree (details: findings_proposed/C12.md)
 PENDING = {
     # recorded by the lead as known findings (known_findings.d/batch2_tokens.json); kept here for reference
     "nondeterminism:deepcopy:DataFrame&unconsolidated-blocks":
